@@ -95,7 +95,9 @@ static void checkC38(Ctx& c, long idx, Rng& r) {
         std::string op;
         int kind = r.integer(0, 9);
         c.setPhase(en + " op");
-        if (kind == 0 || (e.numOps() == 0 && kind < 6)) {
+        if (kind == 9) {
+            op = "none";      // state-only step: the same State re-evaluated after only u (or only q) changed
+        } else if (kind == 0 || (e.numOps() == 0 && kind < 6)) {
             if (disabled) { e.force.enable(s); disabled = false; op = "enable"; }
             else { e.force.disable(s); disabled = true; op = "disable"; }
             c.require("enable-flag:" + en, e.force.isDisabled(s) == disabled, [&]() { return k.witness().set("what", "isDisabled() does not report the flag just set").set("op", op); });
@@ -106,6 +108,7 @@ static void checkC38(Ctx& c, long idx, Rng& r) {
         // sometimes also move the state (q and/or u), sometimes leave it: a stale cache only
         // shows when nothing else changes.
         int mv = r.integer(0, 3);
+        if (op == "none") mv = r.integer(1, 2);
         if (mv == 1) { Vector u = s.getU(); for (int j = 0; j < k.nu; ++j) u[j] = r.sym(2.0); s.updU() = u; }
         else if (mv == 2) { k.perturbQ(s, r); }
         hist.push(op + (mv == 1 ? "+u" : mv == 2 ? "+q" : ""));
